@@ -17,15 +17,20 @@ def seeds():
     out = ["| seed | change (author: an independent sub-agent that saw only the property text) | needs | outcome |", "|---|---|---|---|"]
     for f in sorted(glob.glob(os.path.join(HERE, "seeded", "*", "meta.json"))):
         m = json.load(open(f))
-        out.append("| %s | %s | %s | %s |" % (m["id"], esc(m["change"]), esc(m.get("needs_to_manifest", "")), esc(m["result"])))
+        res = m["result"]
+        if m.get("obsolete"):
+            res += " [OBSOLETE: " + m.get("obsolete_reason", "the code it changes was replaced by a repair") + "]"
+        if m.get("rebased"):
+            res += " [" + m["rebased"] + "]"
+        out.append("| %s | %s | %s | %s |" % (m["id"], esc(m["change"]), esc(m.get("needs_to_manifest", "")), esc(res)))
     return "\n".join(out)
 
 
 def seedcount():
     ms = [json.load(open(f)) for f in sorted(glob.glob(os.path.join(HERE, "seeded", "*", "meta.json")))]
-    first = [m["id"] for m in ms if re.search(r"\b(missed|MISSED|UNDECIDED|engine error|mis-reported|brittle|textual AST shape)", m["result"])]
+    first = [m["id"] for m in ms if re.search(r"\b(missed|MISSED|UNDECIDED|engine error|ENGINE-ERROR|mis-reported|brittle|textual AST shape|for the wrong reason)", m["result"])]
     bounded_only = [m["id"] for m in ms if re.search(r"bounded stand-in only|by the bounded stand-in \(", m["result"])]
-    return ("%d seeded changes in total (four rounds); caught by the quick tier of the property's check: all. Missed, undecided or "
+    return ("%d seeded changes in total (five rounds); caught by the quick tier of the property's check: all. Missed, undecided or "
             "reported for the wrong reason by the first version of the check, and the reason for a strengthening: %d (%s). Seen by the "
             "bounded part only: %d (%s)." % (len(ms), len(first), ", ".join(first), len(bounded_only), ", ".join(bounded_only)))
 
